@@ -72,11 +72,21 @@ def build(op, ref, rng, meta):
             cur = e
             dos.append(d_)
 
+        states = []          # expected contents after each sub-operation (for probes made INSIDE the context)
+        cur2 = ref
+        for k_, sop in enumerate(subs):
+            pass
+
         def do(D, a, p):
             with a.open_array():
-                for d_ in dos:
-                    a = d_(D, a, p)
+                for k_, d_ in enumerate(dos):
+                    try:
+                        a = d_(D, a, p)
+                    finally:
+                        if do.probe is not None:
+                            do.probe(k_, len(dos))
             return a
+        do.probe = None
         return (Partial(cur) if final is not None else cur), do
 
     if op in ('app1', 'app3'):
@@ -259,6 +269,19 @@ def run(env, res, case, monitors):
                 old_descr = descr_state(path)
                 expected, do = build(op, ref, rng, None)
                 raised = None
+                if hasattr(do, 'probe') and ('ifd_api' in monitors or 'ifd_model' in monitors):
+                    def probe(k_, n_, path=path, i=i, op=op):
+                        # the files must be well-formed after every completed operation, also while the
+                        # array is still held open (only the files are read here, never the handle)
+                        res.count('mon.ifd_inside_context')
+                        try:
+                            decoder.decode_array(path)
+                        except decoder.FormatError as e:
+                            if not any(f['mech'].startswith('ifd:inside-context') for f in res.fails):
+                                res.fail('ifd:inside-context:format-error',
+                                         f'step {i} {op}: after sub-operation {k_ + 1} of {n_}, still inside open_array(): {e}',
+                                         step=i, op=op)
+                    do.probe = probe
                 try:
                     a = do(D, a, path)
                     if getattr(do, 'newpath', False):
